@@ -272,3 +272,72 @@ func init() {
 		return sched.Config{Bounds: b, Iterative: true, MaxSteps: 400000}, c04clusterDownPipelineBody
 	}})
 }
+
+// ---------------------------------------------------------------------------
+// C07 (H) a request that has to be redirected twice: the routing table is two layout changes behind (a refresh
+// has just run, the next one waits for the minimum interval).
+//
+// history   three masters; group 0 moves m0 -> m1 -> m2 | moves m0 -> m1 and is being migrated m1 -> m2 with the key
+//           already at m2 | the same with the key still at m1; then GET / SET / INCR on a key of the group, twice, then a
+//           refresh round and the same again
+// oracle    every reply is the single-server reply: no MOVED / ASK or other error reaches the client while every
+//           node is reachable
+// ---------------------------------------------------------------------------
+
+func c07twoHopsBody() {
+	vrand.Fair()
+	if sched.Choose(sched.ClsInput, 2, "rotation of the random host picks") == 1 {
+		vrand.Intn(2)
+	}
+	hist := []string{"moved-twice", "moved-then-migrating-key-at-target", "moved-then-migrating-key-at-source"}[sched.Choose(sched.ClsInput, 3, "history")]
+	cmd := [][]string{{"GET"}, {"SET", "v2"}, {"INCR"}}[sched.Choose(sched.ClsInput, 3, "command")]
+	cl := cluster.New(3, 0, 3)
+	m1, m2 := cl.Masters()[1], cl.Masters()[2]
+	s := vfStartStack(cl, vfSvcConfig(0, nil, 0))
+	c := s.NewClient("c0")
+	key := cl.KeyInGroup("k", 0, 0)
+	do := func(args ...string) bool {
+		v, err := c.Do(args...)
+		sched.WaitQuiescent()
+		want := refExec(s.ref, args)
+		if err != nil || !resp.Equal(v, want) {
+			sched.Fail("error-reply-although-backend-reachable / request redirected twice", fmt.Sprintf("%s, %v: proxy replied %s (%v), a single server replies %s", hist, args, v, err, want))
+			return false
+		}
+		return true
+	}
+	if !do("SET", key, "7") {
+		return
+	}
+	// a refresh has just completed: the next one waits for the minimum interval
+	s.p.u.triggerSlotsRefresh()
+	sched.WaitQuiescent()
+	cl.MoveGroup(0, m1)
+	switch hist {
+	case "moved-twice":
+		cl.MoveGroup(0, m2)
+	case "moved-then-migrating-key-at-target":
+		cl.SetMigrating(0, m2)
+		cl.MigrateKey(key)
+	case "moved-then-migrating-key-at-source":
+		cl.SetMigrating(0, m2)
+	}
+	args := append([]string{cmd[0], key}, cmd[1:]...)
+	for round := 0; round < 2; round++ {
+		if !do(args...) || !do(args...) {
+			return
+		}
+		s.RefreshRound()
+	}
+	sched.SetOutcome(hist)
+}
+
+func init() {
+	sched.Register(&sched.Scenario{Name: "C07/two-hops", Setup: func(tier string) (sched.Config, func()) {
+		b := sched.Bounds{}
+		if tier == "thorough" {
+			b = sched.Bounds{P: 1, F: 1}
+		}
+		return sched.Config{Bounds: b, Iterative: true, MaxSteps: 400000}, c07twoHopsBody
+	}})
+}
